@@ -67,13 +67,18 @@ class Frame:
         self.env = env
         self.contract = contract
         self.loop_ord = {}
+        self.comp_ord = {}
         self.try_handlers = []     # stack of lists of exception names caught
         if fv is not None and fv.node is not None:
             n = 0
+            k = 0
             for node in _walk_no_nested(fv.node):
                 if isinstance(node, (ast.For, ast.While)):
                     self.loop_ord[id(node)] = n
                     n += 1
+                elif isinstance(node, (ast.GeneratorExp, ast.ListComp, ast.SetComp)):
+                    self.comp_ord[id(node)] = k
+                    k += 1
 
 
 def _walk_no_nested(fn):
@@ -1213,6 +1218,9 @@ class Run:
             self.check_decreases(c, values)
         # old values of modified parameters
         olds = {}
+        if c.modifies and getattr(self, 'summarising', 0):
+            raise OutOfReach('call of %s (modifies %s) inside a comprehension summarised element-wise; '
+                             'give the comprehension a comp_invariant' % (c.qualname, c.modifies))
         for m in c.modifies:
             olds['old_' + m] = self.snapshot(values[m])
             self.havoc_inplace(values[m], m)
